@@ -225,7 +225,7 @@ def strict_parse(text, allow_no_group=False):
         raise Bad("frame: too short")
     if lines[0] != "@startuml" or lines[-1] != "@enduml":
         raise Bad("frame: @startuml/@enduml")
-    m = re.fullmatch(r'partition "(.*)" \{', lines[1])
+    m = re.fullmatch(r'\s*partition "(.*)" \{', lines[1])
     if not m:
         raise Bad("frame: partition")
     g = re.fullmatch(r'\s*group "(.*)"', lines[2])
